@@ -2791,7 +2791,8 @@ def _iterate_flattened_values(value):
     return
 
   if isinstance(value, collections.abc.Mapping):
-    value = collections.abc.ValuesView(value)  # pytype: disable=wrong-arg-count
+    # Keys may hold (or be) references and macros, just like values.
+    value = list(value.keys()) + list(value.values())
 
   if isinstance(value, collections.abc.Iterable):
     for nested_value in value:
